@@ -142,3 +142,5 @@ import Hm.Statements
 #print axioms C18_charset_label_case'
 #print axioms C15_gzipStored_every_prefix_rejected
 #print axioms gunzipR_gzipStored
+#print axioms C15_zlibStored_every_prefix_rejected
+#print axioms C15_rawStored_every_prefix_rejected
